@@ -1,4 +1,4 @@
-use loom::sync::atomic::{AtomicBool, AtomicU64, Ordering};
+use loom::sync::atomic::{AtomicU64, Ordering};
 use crate::loom_side::notify_model::Notify;
 
 /// Provides best-effort flow control for a streaming pull subscriber.
@@ -19,10 +19,6 @@ pub struct FlowControl {
 
     /// The notifier used for checking whether we are able to continue.
     notifier: Notify,
-
-    /// Whether anyone is parked on the notifier. Backpressure is rare, so
-    /// this lets `inc`/`dec` skip the notifier (and its lock) on the hot path.
-    parked: AtomicBool,
 }
 
 impl FlowControl {
@@ -36,16 +32,11 @@ impl FlowControl {
             return;
         }
 
-        // We are going to have to wait; make sure `inc`/`dec` know about it
-        // before we look at the counters again.
-        self.parked.store(true, Ordering::SeqCst);
-
         loop {
             // We didn't have space available; set up a notification
             // so we can wait for it and check again.
             let notified = self.notifier.notified();
             if self.has_available_space() {
-                self.parked.store(false, Ordering::SeqCst);
                 return;
             }
             notified.await;
@@ -59,7 +50,7 @@ impl FlowControl {
             .fetch_add(outstanding_bytes_delta, Ordering::AcqRel);
         self.outstanding_messages
             .fetch_add(outstanding_messages_delta, Ordering::AcqRel);
-        self.wake_parked();
+        self.notifier.notify_waiters();
     }
 
     /// Increments the outstanding values.
@@ -69,16 +60,7 @@ impl FlowControl {
             .fetch_sub(outstanding_bytes_delta, Ordering::AcqRel);
         self.outstanding_messages
             .fetch_sub(outstanding_messages_delta, Ordering::AcqRel);
-        self.wake_parked();
-    }
-
-    /// Wakes up everyone that is waiting for space so they can check again.
-    fn wake_parked(&self) {
-        // SeqCst pairs with the store in `wait_for_available_space`: either we
-        // see the flag, or the waiter sees our counter update.
-        if self.parked.load(Ordering::SeqCst) {
-            self.notifier.notify_waiters();
-        }
+        self.notifier.notify_waiters();
     }
 
     /// Checks whether there is available space.
@@ -115,7 +97,6 @@ pub fn create(max_outstanding_bytes: u64, max_outstanding_messages: u64) -> Flow
         outstanding_bytes,
         outstanding_messages,
         notifier,
-        parked: AtomicBool::new(false),
     };
 
     #[allow(clippy::let_and_return)]
